@@ -35,7 +35,7 @@ using UG = LabeledUndirectedGraph<L>;
 L lab(uint64_t stamp) { return LT<L>::make(stamp); }
 
 struct Counters {
-    uint64_t graphs = 0, iterSteps = 0, conversions = 0, ctorChecks = 0, copies = 0, subsets = 0, remapChecks = 0, labelReads = 0, filesWritten = 0, emptyGraphs = 0,
+    uint64_t remutated = 0, graphs = 0, iterSteps = 0, conversions = 0, ctorChecks = 0, copies = 0, subsets = 0, remapChecks = 0, labelReads = 0, filesWritten = 0, emptyGraphs = 0,
              zeroVertex = 0;
     ObsCounters oc;
 } C;
@@ -197,6 +197,25 @@ template <class G> void c08(Reporter &R, const std::string &cls, const GraphSpec
     std::ostringstream os;
     os << b.g;
     R.digest(os.str() + snapshot(b.g));
+    // enumerate - mutate - enumerate again: traversal must not depend on what an earlier traversal saw
+    if (s.n > 0) {
+        for (int round = 0; round < 3; ++round) {
+            VertexIndex i = r.u(s.n), j = r.u(s.n);
+            if (round == 0) i = 0; // a source below every vertex that had an edge so far
+            Edge k = canon(s.directed, i, j);
+            if (b.x.e.count(k)) {
+                b.g.removeEdge(i, j);
+                b.x.e.erase(k);
+            } else {
+                b.g.addEdge(i, j, lab(5000 + round));
+                b.x.e[k] = Expect::Cell();
+            }
+            ++C.remutated;
+            e = checkIteration(b.g, b.x.e.size(), C.iterSteps);
+            if (e.empty()) e = checkStructure(b.g, b.x, C.oc);
+            if (!e.empty()) { R.violation(cls + "/edges()-after-mutation/" + obs(e), e + " after changing (" + std::to_string(i) + "," + std::to_string(j) + ") on " + s.str()); return; }
+        }
+    }
 }
 
 // ---------------------------------------------------------------- C09
@@ -439,6 +458,7 @@ template <class G> void c10(Reporter &R, const std::string &cls, const GraphSpec
 void flush(Reporter &R) {
     C.oc.flush(R);
     R.count("graphs_built", C.graphs);
+    R.count("enumerate_mutate_enumerate_rounds", C.remutated);
     R.count("edge_iteration_steps", C.iterSteps);
     R.count("conversions_checked", C.conversions);
     R.count("constructor_checks", C.ctorChecks);
